@@ -417,8 +417,14 @@ var catalogue = []tamper{
 	{"all-zero", mECDS, true, sigEdit(func(x *tamperCtx, wt *wireTx, sg sigTriple) (sigTriple, bool) {
 		return sigTriple{new(big.Int), new(big.Int), new(big.Int)}, true
 	})},
-	{"r-eq-N", mECDS, true, sigEdit(func(x *tamperCtx, wt *wireTx, sg sigTriple) (sigTriple, bool) { sg.r = new(big.Int).Set(curveN); return sg, true })},
-	{"s-eq-N", mECDS, true, sigEdit(func(x *tamperCtx, wt *wireTx, sg sigTriple) (sigTriple, bool) { sg.s = new(big.Int).Set(curveN); return sg, true })},
+	{"r-eq-N", mECDS, true, sigEdit(func(x *tamperCtx, wt *wireTx, sg sigTriple) (sigTriple, bool) {
+		sg.r = new(big.Int).Set(curveN)
+		return sg, true
+	})},
+	{"s-eq-N", mECDS, true, sigEdit(func(x *tamperCtx, wt *wireTx, sg sigTriple) (sigTriple, bool) {
+		sg.s = new(big.Int).Set(curveN)
+		return sg, true
+	})},
 	{"r-above-N", mECDS, true, sigEdit(func(x *tamperCtx, wt *wireTx, sg sigTriple) (sigTriple, bool) {
 		v := new(big.Int).Add(curveN, sg.r)
 		if v.Cmp(two256) >= 0 {
